@@ -88,13 +88,14 @@ Definition plain_v (e : err) : str :=
 Record built_fmt := mkbf {
   bf_pieces : list piece;      (* for redact.Sprintf / HelperForErrorf *)
   bf_plain : str;              (* for fmt.Sprintf / fmt.Errorf *)
-  bf_wrapped : list err;       (* %w arguments in order *)
-  bf_errs : list err }.        (* all error arguments in order *)
+  bf_wrapped : list err;       (* non-nil %w arguments in order *)
+  bf_errs : list err;          (* all non-nil error arguments in order *)
+  bf_nw : nat }.               (* number of %w verbs, nil arguments included *)
 
-Definition bf_empty := mkbf [] [] [] [].
+Definition bf_empty := mkbf [] [] [] [] 0.
 
 Definition bf_add (b : built_fmt) (p : piece) (pl : str) : built_fmt :=
-  mkbf (bf_pieces b ++ [p]) (bf_plain b ++ pl) (bf_wrapped b) (bf_errs b).
+  mkbf (bf_pieces b ++ [p]) (bf_plain b ++ pl) (bf_wrapped b) (bf_errs b) (bf_nw b).
 
 (* format == "" && len(args) == 0 *)
 Definition is_fmt_empty (f : list fpiece) : bool :=
@@ -136,14 +137,18 @@ Fixpoint build (r : recipe) (s : bstate) {struct r} : option err * bstate :=
                      | VW => lit "%!w(<nil>)"
                      | VD => lit "%!d(<nil>)"
                      end in
-            build_fmt rest (bf_add acc (PLit t) t) s1
+            let acc0 := bf_add acc (PLit t) t in
+            let acc1 := mkbf (bf_pieces acc0) (bf_plain acc0) (bf_wrapped acc0) (bf_errs acc0)
+                             (match v with VW => S (bf_nw acc0) | _ => bf_nw acc0 end) in
+            build_fmt rest acc1 s1
           | Some e =>
             let piece := match v with VPlusV => nested_plus_v (sem e) | _ => nested_v (sem e) end in
             let pl := match v with VPlusV => (if lib_format e then fmt_plain_verbose e else error_text e)
                                  | _ => plain_v e end in
             let acc1 := mkbf (bf_pieces acc ++ [piece]) (bf_plain acc ++ pl)
                              (match v with VW => bf_wrapped acc ++ [e] | _ => bf_wrapped acc end)
-                             (bf_errs acc ++ [e]) in
+                             (bf_errs acc ++ [e])
+                             (match v with VW => S (bf_nw acc) | _ => bf_nw acc end) in
             build_fmt rest acc1 s1
           end
         end
@@ -288,10 +293,15 @@ Fixpoint build (r : recipe) (s : bstate) {struct r} : option err * bstate :=
   | RFmtErrorf f =>
     let '(b, s1) := build_fmt f bf_empty s in
     let '(i, s2) := fresh_oid s1 in
-    match bf_wrapped b with
-    | [] => (Some (Leaf i (LErrString (bf_plain b))), s2)     (* fmt.Errorf without %w returns errors.New(text) *)
-    | [w] => (Some (Wrap i (WFmtWrap (bf_plain b)) w), s2)
-    | ws => (Some (Multi i (MFmtWraps (bf_plain b)) ws), s2)
+    (* the number of %w verbs decides the type; nil arguments are dropped
+       from *fmt.wrapErrors and leave a *fmt.wrapError without a cause *)
+    match bf_nw b with
+    | O => (Some (Leaf i (LErrString (bf_plain b))), s2)
+    | S O => match bf_wrapped b with
+             | w :: _ => (Some (Wrap i (WFmtWrap (bf_plain b)) w), s2)
+             | [] => (Some (Leaf i (LFmtWrapNil (bf_plain b))), s2)
+             end
+    | _ => (Some (Multi i (MFmtWraps (bf_plain b)) (bf_wrapped b)), s2)
     end
   | RPkgMsg r msg => on r s (mk_wrap (WPkgMsg msg))
   | RPkgStack r =>
